@@ -374,22 +374,30 @@ def o7(h, st):
 @contract("C09", "O8.simplify", targets=[(C, "simplify"), (C, "Circuit.copy"), (C, "Circuit.remove_small_rotations"), (C, "Circuit.remove_redundant_gates")],
           level="S", structures=lambda tier: [{"gates": g} for g in small_circuits(tier, 3, alpha=[1, 3, 4, 7] if tier == "quick" else [0, 1, 3, 4, 5, 7])] +
                                   [{"gates": g} for g in small_circuits(tier, 2, alpha=[4, 13, 10, 14, 15]) if len(g) == 2] +
-                                  [{"gates": g} for g in small_circuits(tier, 2, alpha=[4, 19, 1, 20]) if len(g) == 2],
+                                  [{"gates": g} for g in small_circuits(tier, 2, alpha=[4, 19, 1, 20]) if len(g) == 2] +
+                                  # the caller's own threshold (far below the default 1e-3) with angles between the two: nothing may be dropped
+                                  [{"gates": g, "thr": 1e-6} for g in small_circuits(tier, 2, alpha=[1, 3, 4, 7]) if g and any(ALPHA[a][0] in PARAM for a in g)],
           native_samples=angle_samples, max_paths=300)
 def o8(h, st):
-    """ensures U(result) = lambda U(input) for angles away from the thresholds; input circuit unchanged"""
+    """ensures U(result) = lambda U(input) for angles away from the thresholds (the default threshold, and a threshold stated by the caller with angles between it and the
+    default); input circuit unchanged"""
     n = 3
     gates = build(h, st["gates"])
+    thr = st.get("thr")
     for i, a in enumerate(st["gates"]):
         if ALPHA[a][0] in PARAM:
             p = h.real(f"p{i}", angle_denom=2)
             # keep the angles in the generic region (no rotation or merged rotation below the threshold, no rounding ties)
-            h.assume(p > 0.01 * (i + 1))
-            h.assume(p < 0.02 * (i + 1))
+            if thr is None:
+                h.assume(p > 0.01 * (i + 1))
+                h.assume(p < 0.02 * (i + 1))
+            else:
+                h.assume(p > 20 * thr * (i + 1))
+                h.assume(p < 30 * thr * (i + 1))
     c = mk_circuit(gates)
     before = snapshot(c.__dict__)
     U1, A = circ_rows(c._gates, n, h)
-    out = h.call(C, "simplify", c)
+    out = h.call(C, "simplify", c) if thr is None else h.call(C, "simplify", c, 100, thr)
     U2, _ = circ_rows(out._gates, n, h)
     h.mat_equal("U(result) == lambda U(input)", U2, U1, A, n, up_to_phase=True)
     h.check("input circuit unchanged", snapshot(c.__dict__) == before)
